@@ -566,6 +566,10 @@ def _check_main(ctx, rep: Report):
 
 def check(ctx, rep):
     _check_main(ctx, rep)
+    from . import metarules, r5rules
+    metarules.for_class_rule(ctx, rep, "C17.META", ("attrs",))
+    r5rules.forward_verbatim(ctx, rep, "C17.FWD")
+    r5rules.varkw_not_rebound(ctx, rep, "C17.KW")
     from .c06 import inserter_tables_rule
     inserter_tables_rule(ctx, rep, "C17.INSERT")      # the advertised _index/_insert/replace flags reach the container operation
     from . import shared
